@@ -43,12 +43,12 @@ PROPS = {
         "assumptions": BASE_ASSUME,
         "runs": [
             {"mode": "model", "kinds": KINDS, "profiles": ["tiny", "churn", "recycle", "recycle", "shape", "ranges", "ttl-edge", "loadfactor"],
-             "cases_quick": 1600, "cases_thorough": 80000, "trigger_any": bits("HIT_RECYCLED"), "typesets": 7},
+             "cases_quick": 1600, "cases_thorough": 40000, "trigger_any": bits("HIT_RECYCLED"), "typesets": 7},
             {"mode": "model", "kinds": BULKK, "profiles": ["bulk"], "salt": "b",
-             "cases_quick": 120, "cases_thorough": 12000, "trigger_any": bits("HIT_RECYCLED", "EVICT", "EXPIRE"), "typesets": 7},
+             "cases_quick": 120, "cases_thorough": 6000, "trigger_any": bits("HIT_RECYCLED", "EVICT", "EXPIRE"), "typesets": 7},
             # thorough only: long histories on one instance (every slot recycled hundreds of times)
             {"mode": "model", "kinds": KINDS, "profiles": ["recycle", "churn", "shape"], "salt": "long", "thorough_only": True, "nops": (800, 2500),
-             "cases_quick": 0, "cases_thorough": 1500, "trigger_any": bits("HIT_RECYCLED"), "typesets": 7},
+             "cases_quick": 0, "cases_thorough": 250, "trigger_any": bits("HIT_RECYCLED"), "typesets": 7},
         ],
     },
     "C02": {
@@ -60,12 +60,12 @@ PROPS = {
         "assumptions": BASE_ASSUME,
         "runs": [
             {"mode": "model", "kinds": KINDS, "profiles": ["tiny", "churn", "recycle", "shape", "ranges", "ttl-edge", "clear", "loadfactor"],
-             "cases_quick": 1600, "cases_thorough": 80000, "trigger_any": bits("EVICT", "ERASE_OK", "REAP", "CLEAR_NONEMPTY", "OVERWRITE_EXP"), "typesets": 7},
+             "cases_quick": 1600, "cases_thorough": 40000, "trigger_any": bits("EVICT", "ERASE_OK", "REAP", "CLEAR_NONEMPTY", "OVERWRITE_EXP"), "typesets": 7},
             {"mode": "model", "kinds": BULKK, "profiles": ["bulk"], "salt": "b",
-             "cases_quick": 120, "cases_thorough": 12000, "trigger_any": bits("EVICT", "ERASE_OK", "REAP"), "typesets": 7},
+             "cases_quick": 120, "cases_thorough": 6000, "trigger_any": bits("EVICT", "ERASE_OK", "REAP"), "typesets": 7},
             # thorough only: long histories on one instance (every slot recycled hundreds of times)
             {"mode": "model", "kinds": KINDS, "profiles": ["recycle", "churn", "shape"], "salt": "long", "thorough_only": True, "nops": (800, 2500),
-             "cases_quick": 0, "cases_thorough": 1500, "trigger_any": bits("EVICT", "ERASE_OK"), "typesets": 7},
+             "cases_quick": 0, "cases_thorough": 250, "trigger_any": bits("EVICT", "ERASE_OK"), "typesets": 7},
         ],
     },
     "C03": {
@@ -77,12 +77,12 @@ PROPS = {
         "assumptions": BASE_ASSUME,
         "runs": [
             {"mode": "model", "kinds": KINDS, "profiles": ["tiny", "churn", "recycle", "recycle", "shape", "noop", "ttl-edge"], "noinsr": True,
-             "cases_quick": 1600, "cases_thorough": 80000, "trigger_any": bits("EVICT_AFTER_GAP", "EVICT_CHAIN3"), "typesets": 7},
+             "cases_quick": 1600, "cases_thorough": 40000, "trigger_any": bits("EVICT_AFTER_GAP", "EVICT_CHAIN3"), "typesets": 7},
             {"mode": "model", "kinds": KINDS, "profiles": ["ranges"], "salt": "r",
-             "cases_quick": 100, "cases_thorough": 16000, "trigger_any": bits("EVICT_AFTER_GAP", "EVICT_CHAIN3", "RANGE_OVERCAP"), "typesets": 7},
+             "cases_quick": 100, "cases_thorough": 8000, "trigger_any": bits("EVICT_AFTER_GAP", "EVICT_CHAIN3", "RANGE_OVERCAP"), "typesets": 7},
             # thorough only: long histories on one instance (every slot recycled hundreds of times)
             {"mode": "model", "kinds": KINDS, "profiles": ["recycle", "churn", "shape"], "salt": "long", "thorough_only": True, "nops": (800, 2500),
-             "cases_quick": 0, "cases_thorough": 1500, "trigger_any": bits("EVICT_AFTER_GAP", "EVICT_CHAIN3"), "typesets": 7, "noinsr": True},
+             "cases_quick": 0, "cases_thorough": 250, "trigger_any": bits("EVICT_AFTER_GAP", "EVICT_CHAIN3"), "typesets": 7, "noinsr": True},
         ],
     },
     "C04": {
@@ -94,10 +94,10 @@ PROPS = {
         "assumptions": BASE_ASSUME,
         "runs": [
             {"mode": "model", "kinds": TTLK, "profiles": ["ttl-edge", "ttl-edge", "ttl-edge", "tiny", "churn", "ranges"],
-             "cases_quick": 3600, "cases_thorough": 160000, "trigger_any": bits("MISS_AT_DL", "EXPIRED_LOOKUP"), "typesets": 7},
+             "cases_quick": 3600, "cases_thorough": 80000, "trigger_any": bits("MISS_AT_DL", "EXPIRED_LOOKUP"), "typesets": 7},
             # batch expiry: hundreds of entries written by one range call reach their deadline together
             {"mode": "model", "kinds": ["ut_map", "ut_set"], "profiles": ["bulk"], "salt": "b",
-             "cases_quick": 600, "cases_thorough": 64000, "trigger_any": bits("MISS_AT_DL", "EXPIRED_LOOKUP", "EXPIRE"), "typesets": 7},
+             "cases_quick": 600, "cases_thorough": 32000, "trigger_any": bits("MISS_AT_DL", "EXPIRED_LOOKUP", "EXPIRE"), "typesets": 7},
         ],
     },
     "C05": {
@@ -109,10 +109,10 @@ PROPS = {
         "assumptions": BASE_ASSUME,
         "runs": [
             {"mode": "model", "kinds": TTLK, "profiles": ["ttl-edge", "ttl-edge", "ttl-edge", "tiny", "churn"], "noinsr": True,
-             "cases_quick": 3600, "cases_thorough": 160000, "trigger_any": bits("HIT_BEFORE_DL", "HIT_MOVED_DL"), "typesets": 7},
+             "cases_quick": 3600, "cases_thorough": 80000, "trigger_any": bits("HIT_BEFORE_DL", "HIT_MOVED_DL"), "typesets": 7},
             # writes through the range forms (per-element TTLs for tlru) must restart the TTL just the same
             {"mode": "model", "kinds": TTLK, "profiles": ["ttl-edge", "ranges", "ranges"], "salt": "r",
-             "cases_quick": 2000, "cases_thorough": 80000, "trigger_any": bits("HIT_BEFORE_DL", "HIT_MOVED_DL"), "typesets": 7},
+             "cases_quick": 2000, "cases_thorough": 40000, "trigger_any": bits("HIT_BEFORE_DL", "HIT_MOVED_DL"), "typesets": 7},
         ],
     },
     "C09": {
@@ -124,7 +124,7 @@ PROPS = {
         "assumptions": BASE_ASSUME,
         "runs": [
             {"mode": "model", "kinds": KINDS, "profiles": ["tiny", "churn", "ttl-edge", "ranges", "noop", "shape"],
-             "cases_quick": 1600, "cases_thorough": 80000, "trigger_any": bits("REJECT", "UPD_ON_U_TRUE", "UPD_ON_U_FALSE"), "typesets": 7},
+             "cases_quick": 1600, "cases_thorough": 40000, "trigger_any": bits("REJECT", "UPD_ON_U_TRUE", "UPD_ON_U_FALSE"), "typesets": 7},
         ],
     },
     "C10": {
@@ -135,13 +135,13 @@ PROPS = {
         "assumptions": BASE_ASSUME,
         "runs": [
             {"mode": "model", "kinds": ["lru", "tlru", "utlru"], "profiles": ["shape", "shape", "recycle", "churn", "tiny", "noop"], "noinsr": True,
-             "cases_quick": 4800, "cases_thorough": 240000, "trigger_any": bits("EVICT_NONTRIV"), "typesets": 7},
+             "cases_quick": 4800, "cases_thorough": 120000, "trigger_any": bits("EVICT_NONTRIV"), "typesets": 7},
             # uses made through the range forms (insert_range updates, range lookups) count like their single forms
             {"mode": "model", "kinds": ["lru", "tlru", "utlru"], "profiles": ["ranges", "ranges", "shape"], "salt": "r",
-             "cases_quick": 2400, "cases_thorough": 120000, "trigger_any": bits("EVICT_NONTRIV", "EVICT_VICTIM_UPD"), "typesets": 7},
+             "cases_quick": 2400, "cases_thorough": 60000, "trigger_any": bits("EVICT_NONTRIV", "EVICT_VICTIM_UPD"), "typesets": 7},
             # thorough only: long histories on one instance (every slot recycled hundreds of times)
             {"mode": "model", "kinds": ["lru", "tlru", "utlru"], "profiles": ["recycle", "churn", "shape"], "salt": "long", "thorough_only": True, "nops": (800, 2500),
-             "cases_quick": 0, "cases_thorough": 1500, "trigger_any": bits("EVICT_NONTRIV"), "typesets": 7, "noinsr": True},
+             "cases_quick": 0, "cases_thorough": 250, "trigger_any": bits("EVICT_NONTRIV"), "typesets": 7, "noinsr": True},
         ],
     },
     "C11": {
@@ -152,12 +152,12 @@ PROPS = {
         "assumptions": BASE_ASSUME,
         "runs": [
             {"mode": "model", "kinds": ["lfu", "lfuda"], "profiles": ["shape", "shape", "recycle", "churn", "tiny", "noop"], "noinsr": True,
-             "cases_quick": 6000, "cases_thorough": 240000, "trigger_any": bits("LFU_MULTI"), "typesets": 7},
+             "cases_quick": 6000, "cases_thorough": 120000, "trigger_any": bits("LFU_MULTI"), "typesets": 7},
             {"mode": "model", "kinds": ["lfu", "lfuda"], "profiles": ["ranges"], "salt": "r",
-             "cases_quick": 1200, "cases_thorough": 40000, "trigger_any": bits("LFU_MULTI", "CNT3"), "typesets": 7},
+             "cases_quick": 1200, "cases_thorough": 20000, "trigger_any": bits("LFU_MULTI", "CNT3"), "typesets": 7},
             # thorough only: long histories on one instance (every slot recycled hundreds of times)
             {"mode": "model", "kinds": ["lfu", "lfuda"], "profiles": ["recycle", "churn", "shape"], "salt": "long", "thorough_only": True, "nops": (800, 2500),
-             "cases_quick": 0, "cases_thorough": 1500, "trigger_any": bits("LFU_MULTI"), "typesets": 7, "noinsr": True},
+             "cases_quick": 0, "cases_thorough": 250, "trigger_any": bits("LFU_MULTI"), "typesets": 7, "noinsr": True},
         ],
     },
     "C12": {
@@ -168,13 +168,13 @@ PROPS = {
         "assumptions": BASE_ASSUME,
         "runs": [
             {"mode": "model", "kinds": ["fifo"], "profiles": ["recycle", "recycle", "shape", "churn", "tiny"], "noinsr": True,
-             "cases_quick": 12000, "cases_thorough": 600000, "trigger_any": bits("EVICT_AFTER_GAP", "EVICT_VICTIM_UPD"), "typesets": 7},
+             "cases_quick": 12000, "cases_thorough": 300000, "trigger_any": bits("EVICT_AFTER_GAP", "EVICT_VICTIM_UPD"), "typesets": 7},
             # updates and insertions through the range / iterator-pair overloads must keep (resp. set) the same order
             {"mode": "model", "kinds": ["fifo"], "profiles": ["ranges", "ranges", "shape", "recycle"], "salt": "r",
-             "cases_quick": 4000, "cases_thorough": 200000, "trigger_any": bits("EVICT_AFTER_GAP", "EVICT_VICTIM_UPD"), "typesets": 7},
+             "cases_quick": 4000, "cases_thorough": 100000, "trigger_any": bits("EVICT_AFTER_GAP", "EVICT_VICTIM_UPD"), "typesets": 7},
             # thorough only: long histories on one instance (every slot recycled hundreds of times)
             {"mode": "model", "kinds": ["fifo"], "profiles": ["recycle", "churn", "shape"], "salt": "long", "thorough_only": True, "nops": (800, 2500),
-             "cases_quick": 0, "cases_thorough": 1500, "trigger_any": bits("EVICT_AFTER_GAP", "EVICT_VICTIM_UPD"), "typesets": 7, "noinsr": True},
+             "cases_quick": 0, "cases_thorough": 250, "trigger_any": bits("EVICT_AFTER_GAP", "EVICT_VICTIM_UPD"), "typesets": 7, "noinsr": True},
         ],
     },
     "C13": {
@@ -185,12 +185,12 @@ PROPS = {
         "assumptions": BASE_ASSUME,
         "runs": [
             {"mode": "model", "kinds": ["mru"], "profiles": ["shape", "shape", "recycle", "churn", "tiny", "noop"], "noinsr": True,
-             "cases_quick": 12000, "cases_thorough": 600000, "trigger_any": bits("EVICT_VICTIM_UPD", "MRU_NEXT"), "typesets": 7},
+             "cases_quick": 12000, "cases_thorough": 300000, "trigger_any": bits("EVICT_VICTIM_UPD", "MRU_NEXT"), "typesets": 7},
             {"mode": "model", "kinds": ["mru"], "profiles": ["ranges", "ranges", "shape"], "salt": "r",
-             "cases_quick": 4000, "cases_thorough": 200000, "trigger_any": bits("EVICT_VICTIM_UPD", "MRU_NEXT"), "typesets": 7},
+             "cases_quick": 4000, "cases_thorough": 100000, "trigger_any": bits("EVICT_VICTIM_UPD", "MRU_NEXT"), "typesets": 7},
             # thorough only: long histories on one instance (every slot recycled hundreds of times)
             {"mode": "model", "kinds": ["mru"], "profiles": ["recycle", "churn", "shape"], "salt": "long", "thorough_only": True, "nops": (800, 2500),
-             "cases_quick": 0, "cases_thorough": 1500, "trigger_any": bits("EVICT_VICTIM_UPD", "MRU_NEXT"), "typesets": 7, "noinsr": True},
+             "cases_quick": 0, "cases_thorough": 250, "trigger_any": bits("EVICT_VICTIM_UPD", "MRU_NEXT"), "typesets": 7, "noinsr": True},
         ],
     },
     "C14": {
@@ -202,9 +202,9 @@ PROPS = {
         "assumptions": BASE_ASSUME,
         "runs": [
             {"mode": "model", "kinds": ["lfuda"], "profiles": ["aging", "aging", "aging", "shape", "churn", "tiny"], "noinsr": True,
-             "cases_quick": 12000, "cases_thorough": 600000, "trigger_any": bits("AGING_PARTIAL", "AGING_IN_INSERT"), "typesets": 7},
+             "cases_quick": 12000, "cases_thorough": 300000, "trigger_any": bits("AGING_PARTIAL", "AGING_IN_INSERT"), "typesets": 7},
             {"mode": "model", "kinds": ["lfuda"], "profiles": ["aging", "ranges"], "salt": "r",
-             "cases_quick": 2000, "cases_thorough": 80000, "trigger_any": bits("AGING_PARTIAL", "AGING_IN_INSERT"), "typesets": 7},
+             "cases_quick": 2000, "cases_thorough": 40000, "trigger_any": bits("AGING_PARTIAL", "AGING_IN_INSERT"), "typesets": 7},
         ],
     },
     "C15": {
@@ -232,7 +232,7 @@ PROPS = {
         "assumptions": BASE_ASSUME,
         "runs": [
             {"mode": "model", "kinds": ["tlru", "utlru"], "profiles": ["ttl-edge", "ttl-edge", "churn", "tiny"], "noinsr": True,
-             "cases_quick": 10000, "cases_thorough": 400000, "trigger_any": bits("EVICT_MIXED"), "typesets": 7},
+             "cases_quick": 10000, "cases_thorough": 200000, "trigger_any": bits("EVICT_MIXED"), "typesets": 7},
         ],
     },
     "C17": {
@@ -243,9 +243,9 @@ PROPS = {
         "assumptions": BASE_ASSUME,
         "runs": [
             {"mode": "model", "kinds": TTLK, "profiles": ["ttl-edge", "ttl-edge", "churn", "tiny", "ranges"],
-             "cases_quick": 4800, "cases_thorough": 200000, "trigger_any": bits("CLEAN_MIXED"), "typesets": 7},
+             "cases_quick": 4800, "cases_thorough": 100000, "trigger_any": bits("CLEAN_MIXED"), "typesets": 7},
             {"mode": "model", "kinds": ["ut_map", "ut_set"], "profiles": ["bulk"], "salt": "b",
-             "cases_quick": 600, "cases_thorough": 64000, "trigger_any": bits("CLEAN_MIXED", "CLEAN_SOME", "REAP"), "typesets": 7},
+             "cases_quick": 600, "cases_thorough": 32000, "trigger_any": bits("CLEAN_MIXED", "CLEAN_SOME", "REAP"), "typesets": 7},
         ],
     },
     "C18": {
@@ -257,7 +257,7 @@ PROPS = {
         "assumptions": BASE_ASSUME + ["twins are two instances of the same build; rr twins share the injected random_device seed"],
         "runs": [
             {"mode": "twin-range", "kinds": KINDS, "profiles": ["ranges", "ranges", "tiny", "ttl-edge", "shape"],
-             "cases_quick": 1600, "cases_thorough": 80000, "trigger_any": 1 << TWIN_BIT, "typesets": 7},
+             "cases_quick": 1600, "cases_thorough": 40000, "trigger_any": 1 << TWIN_BIT, "typesets": 7},
         ],
     },
     "C19": {
@@ -269,7 +269,7 @@ PROPS = {
         "assumptions": BASE_ASSUME + ["twins are two instances of the same build; rr twins share the injected random_device seed"],
         "runs": [
             {"mode": "twin-noop", "kinds": KINDS, "profiles": ["tiny", "churn", "shape", "ttl-edge", "aging", "recycle"],
-             "cases_quick": 1600, "cases_thorough": 80000, "trigger_any": 1 << TWIN_BIT, "typesets": 7},
+             "cases_quick": 1600, "cases_thorough": 40000, "trigger_any": 1 << TWIN_BIT, "typesets": 7},
         ],
     },
     "C20": {
@@ -281,7 +281,7 @@ PROPS = {
         "assumptions": BASE_ASSUME,
         "runs": [
             {"mode": "twin-clear", "kinds": ["utlru", "ut_map"], "profiles": ["clear", "ttl-edge", "churn", "tiny", "ranges"],
-             "cases_quick": 10000, "cases_thorough": 400000, "trigger_all": bits("CLEAR_NONEMPTY") | (1 << TWIN_BIT), "typesets": 7},
+             "cases_quick": 10000, "cases_thorough": 200000, "trigger_all": bits("CLEAR_NONEMPTY") | (1 << TWIN_BIT), "typesets": 7},
         ],
     },
     "C08": {
